@@ -290,6 +290,27 @@ func init() {
 					return 150000
 				},
 				Run: func(c *runner.Ctx, idx uint64) {
+					if idx == 0 {
+						// recorded finding: a carriage return written raw inside a
+						// literal is accepted and comes back as a line feed (the
+						// random spellings below always escape CR, as they must LF)
+						for _, q := range []string{`"`, `'`} {
+							for _, v := range []string{"a\rb", "\r", "x\r\ry"} {
+								src := q + v + q
+								c.Begin(strconv.Quote(src))
+								tree, o := safeParse(src)
+								c.Eval(1)
+								if o.Failed() {
+									c.Count("raw_cr_rejected", 1)
+									continue
+								}
+								if sn, ok := tree.Node.(*ast.StringNode); ok && sn.Value != v {
+									c.Violate("string-value:raw-carriage-return-becomes-line-feed", fmt.Sprintf("literal %s came back as %s", strconv.Quote(src), strconv.Quote(sn.Value)),
+										map[string]interface{}{"literal": src, "value_quoted": strconv.Quote(v), "got_quoted": strconv.Quote(sn.Value)})
+								}
+							}
+						}
+					}
 					v := randomString(c.R)
 					src := spellString(c.R, v, int(idx%3))
 					if idx < 64 {
